@@ -102,6 +102,7 @@ type Scenario struct {
 	IntnGate    func(w *World) bool // rand.Intn is a choice point only while this holds
 	WriteOracle bool
 	NoBootTick  bool
+	Monitors    bool // run the real per-node health monitor goroutines as cooperative threads (virtual ticker / sleep, probe outcome = node up?)
 	RefreshLoop bool // run the real topology refresh goroutine; synchronised with a barrier at every quiescent point
 	InputEnum   bool // the scenario itself is one point of an input enumeration (counts as a distinct non-trivial case)
 	ReuseFds    bool
@@ -188,6 +189,7 @@ type World struct {
 	Cmds      []CmdRec                     // global order
 	Ticks     int
 	faultUsed []bool
+	Down      map[string]bool // nodes that currently refuse connections and fail health probes
 	dialCount map[string]int
 	Steps     int
 	Events    []string // labels of the events taken (only when tracing)
@@ -222,6 +224,7 @@ const (
 	evFault
 	evClientClose
 	evTick
+	evThread // a background thread of the proxy (health monitor): its ticker fires / its sleep ends
 )
 
 type event struct {
@@ -247,6 +250,14 @@ func (e event) label(w *World) string {
 		return fmt.Sprintf("CLOSE(c%d)", e.idx)
 	case evTick:
 		return fmt.Sprintf("TICK(%s)", w.Sc.Ticks[w.Ticks])
+	case evThread:
+		if e.idx < len(vsys.Threads) {
+			t := vsys.Threads[e.idx]
+			if t.Sleeping {
+				return fmt.Sprintf("THREAD(%s#%d wakes)", t.Name, e.idx)
+			}
+			return fmt.Sprintf("THREAD(%s#%d ticker)", t.Name, e.idx)
+		}
 	}
 	return "?"
 }
@@ -328,12 +339,19 @@ func Execute(sc *Scenario, choose vsys.Chooser) *World {
 // ExecuteWith is Execute with a custom boot step (boot must set w.VW); nil = the standard boot:
 // real engine on the simulated kernel, topology injected through the real refresh code, one ticker round.
 func ExecuteWith(sc *Scenario, choose vsys.Chooser, boot func(w *World)) *World {
-	w := &World{Sc: sc, KV: map[string]map[string]string{}, dialCount: map[string]int{}}
+	w := &World{Sc: sc, KV: map[string]map[string]string{}, dialCount: map[string]int{}, Down: map[string]bool{}}
 	w.faultUsed = make([]bool, len(sc.Faults))
 	vsys.Reset()
 	vsys.Choose = choose
 	vsys.WriteOracle = sc.WriteOracle
 	vsys.IntnChoice = sc.IntnChoice
+	vsys.ThreadsEnabled = sc.Monitors
+	vsys.DetectHook = func(addr string) error {
+		if w.Down[addr] {
+			return fmt.Errorf("dial tcp %s: connection refused", addr)
+		}
+		return nil
+	}
 	vsys.IntnGate = nil
 	if sc.IntnGate != nil {
 		vsys.IntnGate = func() bool { return sc.IntnGate(w) }
@@ -549,7 +567,7 @@ func (w *World) enabled() []event {
 		if w.faultUsed[i] || w.Ticks < f.AfterTicks {
 			continue
 		}
-		if f.Kind == "topo" || f.Kind == "nodes-change" {
+		if f.Kind == "topo" || f.Kind == "nodes-change" || f.Kind == "node-down" || f.Kind == "node-up" {
 			evs = append(evs, event{evFault, i})
 		} else if bc := w.faultTarget(f); bc != nil {
 			evs = append(evs, event{evFault, i})
@@ -558,6 +576,14 @@ func (w *World) enabled() []event {
 	for i, c := range w.Clients {
 		if c.Spec.CloseAfter > 0 && c.Accepted && !c.PeerClosed && !c.Sock.Closed && c.next >= c.Spec.CloseAfter {
 			evs = append(evs, event{evClientClose, i})
+		}
+	}
+	if w.Sc.Monitors {
+		vsys.SettleThreads()
+		for i, t := range vsys.Threads {
+			if t.SleeperDue() || t.TickerDue() != nil {
+				evs = append(evs, event{evThread, i})
+			}
 		}
 	}
 	if w.Ticks < len(w.Sc.Ticks) && (w.Sc.TickGate == nil || w.Sc.TickGate(w)) {
@@ -717,6 +743,10 @@ func (w *World) wait() (fd int, mask uint32, n int, stop bool) {
 				w.Topo = f.Nodes
 				continue
 			}
+			if f.Kind == "node-down" || f.Kind == "node-up" {
+				w.Down[f.Addr] = f.Kind == "node-down"
+				continue
+			}
 			if f.Kind == "topo" {
 				w.Topo = f.Nodes
 				if err := core.VerifUpdateNodes(NodesText(f.Nodes)); err != nil {
@@ -743,6 +773,18 @@ func (w *World) wait() (fd int, mask uint32, n int, stop bool) {
 				c.Sock.PeerFIN = true
 			}
 			continue
+		case evThread:
+			t := vsys.Threads[ev.idx]
+			if t.SleeperDue() {
+				t.Wake()
+			} else if tk := t.TickerDue(); tk != nil {
+				tk.Fire()
+			}
+			if vsys.ThreadPanic != "" && w.Panic == nil {
+				w.Panic = "background thread " + vsys.ThreadPanic
+				return 0, 0, 0, true
+			}
+			continue
 		case evTick:
 			// remember which backend replies the proxy had not read when the clock jumped
 			unread := map[int]bool{}
@@ -766,6 +808,9 @@ func (w *World) wait() (fd int, mask uint32, n int, stop bool) {
 
 func (w *World) dial(addr string) *vsys.Sock {
 	w.dialCount[addr]++
+	if w.Down[addr] {
+		return nil
+	}
 	if n, ok := w.Sc.RefuseDial[addr]; ok {
 		if n < 0 || w.dialCount[addr] <= n {
 			return nil
@@ -1147,6 +1192,19 @@ func (w *World) ProbesIdle() bool {
 	}
 	return true
 }
+
+// ThreadsIdle: no background thread of the proxy has a due ticker or a finished sleep.
+func (w *World) ThreadsIdle() bool {
+	for _, t := range vsys.Threads {
+		if t.SleeperDue() || t.TickerDue() != nil {
+			return false
+		}
+	}
+	return true
+}
+
+// DialCount: number of dials attempted to addr so far.
+func (w *World) DialCount(addr string) int { return w.dialCount[addr] }
 
 // FaultsDone: every scripted fault has been injected.
 func (w *World) FaultsDone() bool {
